@@ -131,6 +131,9 @@ Proof.
   - discriminate.
 Qed.
 
+(* the number of entries saved in the volume set: the data shards, which count against the limit of 256 *)
+Definition nsaved (v : p1vol) : N := N.of_nat (length (filter saved (v_entries v))).
+
 Section Par1Facts.
   Variable md5 : bytes -> bytes.
 
@@ -158,7 +161,8 @@ Section Par1Facts.
       destruct (io_read (volume_path ix (N.of_nat (S i))) st) as [[b|x|q] st1]; cbn [snd] in P.
       + destruct (read_volume md5 b) as [v|x|q]; [| |cbn [snd]; exact P].
         * repeat lazymatch goal with
-                 | |- pres _ (snd (if ?c then _ else _)) => destruct c; [cbn [snd]; exact P|]
+                 | |- pres _ (snd (if ?c then _ else _)) =>
+                     destruct c; [first [cbn [snd]; exact P | eapply pres_trans; [exact P|apply IH]]|]
                  end.
           eapply pres_trans; [exact P|apply IH].
         * (* an unparsable volume is skipped *)
@@ -352,7 +356,7 @@ Section Par1Facts.
     destruct (negb (v_number v =? 0)); [discriminate|].
     destruct (load_data md5 ix (filter saved (v_entries v)) st1) as [[ds|x|q] st2] eqn:EL; try discriminate.
     destruct ds as [|d0 ds]; [discriminate|].
-    destruct (256 <=? v_count v); [discriminate|].
+    match type of H with context [if 256 <=? ?n then _ else _] => destruct (256 <=? n) end; [discriminate|].
     match type of H with context [load_vols md5 ix ?a ?i ?n ?sz ?acc st2] =>
       destruct (load_vols md5 ix a i n sz acc st2) as [[[slots size]|x|q] st3] end; try discriminate.
     injection H as <- _. cbn [s_saved s_data]. exists st1, st2. split; [exact F|exact EL].
@@ -499,6 +503,44 @@ Section Par1Facts.
   Proof.
     intros Hread Hvol. cbn [load_vols]. rewrite Hread, Hvol. reflexivity.
   Qed.
+
+  (** * F. a volume of another set (other set hash, or a number that is not the one of its file name) is unusable too *)
+  Lemma load_vols_foreign_is_unusable ix sethash i n' size acc st b st1 v :
+    io_read (volume_path ix (N.of_nat (S i))) st = (Ok b, st1) -> read_volume md5 b = Ok v ->
+    bytes_eqb (v_sethash_stored v) sethash = false \/ v_number v <> N.of_nat (S i) ->
+    load_vols md5 ix sethash i (S n') size acc st = load_vols md5 ix sethash (S i) n' size (acc ++ [None]) st1.
+  Proof.
+    intros Hread Hvol Hf. cbn [load_vols]. rewrite Hread, Hvol.
+    destruct (bytes_eqb (v_sethash_stored v) sethash) eqn:E1; cbn [negb]; [|reflexivity].
+    destruct (N.eqb_spec (v_number v) (N.of_nat (S i))) as [E2|E2]; cbn [negb]; [|reflexivity].
+    destruct Hf as [Hf|Hf]; [discriminate Hf|contradiction].
+  Qed.
+
+  (* the content b of a file at the path of volume k is NOT a volume of the set with set hash sh: it does not parse, or
+     it parses and carries another set hash (a stale or foreign volume) or another volume number *)
+  Definition not_member (sh : bytes) (k : N) (b : bytes) : Prop :=
+    match read_volume md5 b with
+    | Ok v => v_sethash_stored v <> sh \/ v_number v <> k
+    | Err _ => True
+    | Panic _ => False
+    end.
+
+  (* what the loader skips at the path of volume k, given the read result: nothing there, or a file that is not a member *)
+  Definition vol_skipped (sh : bytes) (k : N) (r : outcome bytes) : Prop :=
+    r = Err ENotExist \/ exists b, r = Ok b /\ not_member sh k b.
+
+  Lemma load_vols_not_member_step ix sethash i n' size acc st b st1 :
+    io_read (volume_path ix (N.of_nat (S i))) st = (Ok b, st1) -> not_member sethash (N.of_nat (S i)) b ->
+    load_vols md5 ix sethash i (S n') size acc st = load_vols md5 ix sethash (S i) n' size (acc ++ [None]) st1.
+  Proof.
+    intros Hread Hnm. unfold not_member in Hnm.
+    destruct (read_volume md5 b) as [v|x|q] eqn:EV; [| |destruct Hnm].
+    - apply (load_vols_foreign_is_unusable ix sethash i n' size acc st b st1 v Hread EV).
+      destruct Hnm as [Hh|Hn]; [left|right; exact Hn].
+      destruct (bytes_eqb (v_sethash_stored v) sethash) eqn:E; [|reflexivity].
+      exfalso. apply Hh. apply bytes_eqb_eq. exact E.
+    - exact (load_vols_unparsable_is_unusable ix sethash i n' size acc st b st1 x Hread EV).
+  Qed.
 End Par1Facts.
 
 Print Assumptions p1_load_fs.
@@ -508,3 +550,5 @@ Print Assumptions par1_repair_writes.
 Print Assumptions par1_verify_clean_intact.
 Print Assumptions volume_round_trip.
 Print Assumptions load_vols_unparsable_is_unusable.
+Print Assumptions load_vols_foreign_is_unusable.
+Print Assumptions load_vols_not_member_step.
